@@ -31,6 +31,11 @@ type C09Params struct {
 	// Updates: DTLS 1.3 only: that many UpdateKeys calls per side, issued from their own
 	// goroutines while the writers run (KeyUpdate, its ACK and the epoch switch race the writes)
 	Updates int `json:"updates,omitempty"`
+	// Export (DTLS 1.2 only): "c" or "s": after the writers have finished that side's state is
+	// serialised, its socket dies, and a connection resumed from the bytes writes on; with
+	// EarlyState the application had already read ConnectionState() once before the writers ran
+	Export     string `json:"export,omitempty"`
+	EarlyState bool   `json:"early_state,omitempty"`
 }
 
 func c09Counts(tier string) (int, int) {
@@ -63,6 +68,9 @@ func c09Gen(r *rand.Rand, tier string, idx int) any {
 	if c, _ := dataCfgByName(p.Cfg); c.C.MaxVer == 13 && r.IntN(2) == 0 {
 		p.Updates = 1 + r.IntN(3)
 		p.EarlyWrite = false
+	}
+	if c, _ := dataCfgByName(p.Cfg); c.C.MaxVer == 12 && len(p.RebindAt) == 0 && r.IntN(4) == 0 {
+		p.Export, p.EarlyState, p.CloseRace = []string{"c", "s"}[r.IntN(2)], r.IntN(2) == 0, false
 	}
 	if r.IntN(3) != 0 {
 		p.Rules = NetRules{DropPm: 50 + r.IntN(250), DupPm: r.IntN(100), HoldPm: r.IntN(100), FaultsUntilIdx: 3 + r.IntN(12),
@@ -261,12 +269,21 @@ func c09Run(rc *RunCtx, params any) {
 			n.Inject(time.Duration(i+1)*time.Millisecond, pair.CAddr, pair.SAddr, junk)
 			n.Inject(time.Duration(i+1)*time.Millisecond, pair.SAddr, pair.CAddr, []byte{21, 0xfe, 0xfd, 0, 0, 0, 0, 0, 0, 0, byte(i), 0, 2, 1, 0})
 		}
+		if p.Export != "" && p.EarlyState {
+			if st0, ok0 := pair.ConnOf(p.Export).ConnectionState(); ok0 {
+				_, _ = st0.ExportKeyingMaterial("EXTRACTOR-verif", nil, 16)
+			}
+		}
 		if p.CloseRace {
 			s.Run(func() bool { return writesLive <= 1 }, time.Minute)
 		} else {
 			s.Run(func() bool { return writesLive == 0 }, time.Minute)
 			s.Run(func() bool { return false }, 3*time.Second)
 		}
+	}
+	var resumed *dtls.Conn
+	if established && p.Export != "" && cfg.C.MaxVer == 12 {
+		resumed = c09ExportImport(rc, p, pair, n)
 	}
 	// DTLS 1.3: record numbers are encrypted on the wire; decode them with the sender's own secrets
 	var dec13 map[string]*Decoder13
@@ -276,12 +293,19 @@ func c09Run(rc *RunCtx, params any) {
 		sw, _ := dtls.VerifTrafficSecrets(pair.Server)
 		dec13 = map[string]*Decoder13{"c": NewDecoder13(uint16(cst.CipherSuiteID), cw), "s": NewDecoder13(uint16(cst.CipherSuiteID), sw)}
 	}
+	if resumed != nil {
+		s.Go("resumed-close", func() { _ = resumed.Close() })
+	}
 	pair.Teardown()
 	// oracle over everything each endpoint handed to its socket
 	cm, sm := NewNonceMonitor(), NewNonceMonitor()
 	cm.Dec13, sm.Dec13 = dec13["c"], dec13["s"]
 	for _, em := range n.Emits {
 		var err error
+		if em.Ep == "c2" || em.Ep == "s2" { // the connection resumed from the exported state continues the same sender
+			em.Ep = em.Ep[:1]
+			em.Idx += 1 << 20
+		}
 		if em.Ep == "c" {
 			err = cm.Feed(em, len(cfg.S.CIDOf()))
 		} else {
@@ -310,6 +334,58 @@ func c09Run(rc *RunCtx, params any) {
 		rc.Note("not-established", fmt.Sprintf("c=%v s=%v", pair.CHs.Err, pair.SHs.Err))
 	}
 	rc.R.NonTriv = s.Parks > 0 || len(s.Faults) > 0 || p.WritersC+p.WritersS > 1
+}
+
+// c09ExportImport serialises one side's state, kills its socket, resumes a connection from the
+// bytes on a new socket bound to the same address and lets it write on from two goroutines.
+func c09ExportImport(rc *RunCtx, p *C09Params, pair *Pair, n *SimNet) *dtls.Conn {
+	s := rc.S
+	s.Run(func() bool { return false }, 200*time.Millisecond)
+	st, ok := pair.ConnOf(p.Export).ConnectionState()
+	if !ok {
+		return nil
+	}
+	raw, err := st.MarshalBinary()
+	if err != nil {
+		rc.Note("export-failed", err.Error())
+
+		return nil
+	}
+	var st2 dtls.State
+	if err = st2.UnmarshalBinary(raw); err != nil {
+		rc.Note("import-failed", err.Error())
+
+		return nil
+	}
+	self, peerAddr, sock := pair.CAddr, pair.SAddr, pair.CSock
+	if p.Export == "s" {
+		self, peerAddr, sock = pair.SAddr, pair.CAddr, pair.SSock
+	}
+	sock.Sever()
+	name := p.Export + "2"
+	resumed, rerr := dtls.ResumeWithOptions(&st2, n.Rebind(name, self), peerAddr, pair.Env.Shared[p.Export]...)
+	if rerr != nil {
+		rc.Note("resume-failed", rerr.Error())
+
+		return nil
+	}
+	live := 2
+	for w := 0; w < 2; w++ {
+		w := w
+		s.Go(fmt.Sprintf("%s-writer%d", name, w), func() {
+			defer func() { live-- }()
+			for k := 0; k < 3; k++ {
+				if _, werr := resumed.Write(Payload(name, w, k, p.Size)); werr != nil {
+					return
+				}
+			}
+		})
+	}
+	s.Run(func() bool { return live == 0 }, 30*time.Second)
+	s.Run(func() bool { return false }, time.Second)
+	s.Probe("writes-after-export-import")
+
+	return resumed
 }
 
 func init() {
